@@ -9,8 +9,9 @@ VARIABLES l, nrej
 IsStr(r) == r.k = "ret" /\ r.t = "str"
 M(e) == [i \in 1..Len(e.m) |-> [row |-> e.m[i].row, val |-> e.m[i].val]]
 M1(e) == \A i \in 1..Len(e.m) : Fits(e.m[i].row, e.m[i].val)
+Ordered(e) == "ordered" \in DOMAIN e /\ e.ordered
 (* E1: the code's encoding is the specification's encoding (where the spec covers every value kind of the mapping) *)
-E1(e) == e.spec_covers => (IsStr(e.enc) /\ e.enc.v = Encode(M(e), e.sep, e.paren))
+E1(e) == (e.spec_covers /\ ~Ordered(e)) => (IsStr(e.enc) /\ e.enc.v = Encode(M(e), e.sep, e.paren))
 (* RT1: decoding the encoding returns the mapping *)
 RT1(e) == e.dec1 = e.want
 (* RT2: the validated form decodes to the same mapping as the input *)
